@@ -1233,11 +1233,12 @@ Section RoundTrip.
 
   Theorem print_parse_dfa : forall D,
     tdfa_wf_b D = true -> NoDup (tdQ D) -> NoDup (tdF D) -> NoDup (map fst (tdD D)) ->
-    (forall q, In q (tdQ D) -> re_word q = true /\ is_reserved kw_dfa q = false) ->
+    (forall q, In q (tdQ D) -> re_word q = true) ->
+    (forall p a q, In ((p, a), q) (tdD D) -> is_reserved kw_dfa p = false) ->
     (forall a, In a (tdS D) -> re_word a = true) ->
     exists D', parse_dfa (print_dfa ord ordP D) = Some D' /\ tdfa_equiv D D'.
   Proof.
-    intros D Hwf HnQ HnF HnD HQ HS.
+    intros D Hwf HnQ HnF HnD HQ Hsrc HS.
     unfold tdfa_wf_b in Hwf. rewrite !andb_true_iff in Hwf. destruct Hwf as [[[Hq0 HF] HD] Htot].
     apply mem_In in Hq0. apply subsetb_incl in HF. rewrite forallb_forall in HD, Htot.
     assert (HDs : forall p a q, In ((p, a), q) (tdD D) -> In p (tdQ D) /\ In a (tdS D) /\ In q (tdQ D)).
@@ -1257,7 +1258,7 @@ Section RoundTrip.
         + cbn [header In] in Hl. destruct Hl as [<-|[<-|[<-|[<-|[]]]]].
           * unfold line_ok. cbn [starts_percent]. change (eqb kw_states kw_states) with true. cbv iota.
             rewrite (perm_has_dup_false _ _ (ord_perm _) HnQ).
-            rewrite (forallb_perm_true re_word _ _ (ord_perm _) (fun q Hq => proj1 (HQ q Hq))).
+            rewrite (forallb_perm_true re_word _ _ (ord_perm _) HQ).
             destruct (ord (tdQ D)); [contradiction | reflexivity].
           * unfold line_ok. cbn [starts_percent]. change (eqb kw_final kw_states) with false. change (eqb kw_final kw_final) with true. cbv iota. cbn [orb].
             rewrite (perm_has_dup_false _ _ (ord_perm _) HnF).
@@ -1265,11 +1266,11 @@ Section RoundTrip.
             intros q Hq. apply (HQ q (HF q Hq)).
           * unfold line_ok. cbn [starts_percent]. change (eqb kw_initial kw_states) with false. change (eqb kw_initial kw_final) with false.
             change (eqb kw_initial kw_initial) with true. cbv iota. cbn [orb has_dup mem existsb negb forallb andb].
-            rewrite (proj1 (HQ _ Hq0)). reflexivity.
+            rewrite (HQ _ Hq0). reflexivity.
           * reflexivity.
       - rewrite Hdecl. cbn [map fst items]. apply has_dup_NoDup. reflexivity.
       - intros p a q Hin. apply (proj1 (dfa_trs_In _ _ _ _)) in Hin. destruct (HDs p a q Hin) as [Hp [Ha Hq]].
-        destruct (HQ p Hp) as [Hpw Hpr]. destruct (HQ q Hq) as [Hqw _].
+        pose proof (HQ p Hp) as Hpw. pose proof (Hsrc p a q Hin) as Hpr. pose proof (HQ q Hq) as Hqw.
         repeat split; [apply good_state_trans; assumption | exact Hpw | exact Hqw | apply re_word_re_any, HS, Ha]. }
     pose proof (regroup_perm ordP ordP_perm (dfa_trs D)) as Hperm.
     set (A := mkAut (ord (tdQ D)) (regroup ordP (dfa_trs D)) [tdq0 D] (ord (tdF D)) items) in *.
@@ -1414,3 +1415,611 @@ Proof.
   - intros q Hq. rewrite group_nfa_unfold in Hin.
     destruct (fold_gstep_entry trs [] (p, a) s q Hin Hq) as [[s0 [[] _]]|Hr]. exact Hr.
 Qed.
+
+Lemma line_ok_states sre lre kw ws :
+  ws <> [] -> NoDup ws -> (forall q, In q ws -> sre q = true) -> line_ok sre lre kw (kw_states :: ws) = true.
+Proof.
+  intros Hne Hn Hs. unfold line_ok. cbn [starts_percent]. change (eqb kw_states kw_states) with true. cbv iota.
+  rewrite (proj2 (has_dup_NoDup ws) Hn), (proj2 (forallb_forall _ _) Hs).
+  destruct ws; [contradiction | reflexivity].
+Qed.
+
+Lemma line_ok_final sre lre kw ws :
+  NoDup ws -> (forall q, In q ws -> sre q = true) -> line_ok sre lre kw (kw_final :: ws) = true.
+Proof.
+  intros Hn Hs. unfold line_ok. cbn [starts_percent]. change (eqb kw_final kw_states) with false.
+  change (eqb kw_final kw_final) with true. cbv iota. cbn [orb].
+  rewrite (proj2 (has_dup_NoDup ws) Hn), (proj2 (forallb_forall _ _) Hs). reflexivity.
+Qed.
+
+Lemma line_ok_initial sre lre kw q : sre q = true -> line_ok sre lre kw [kw_initial; q] = true.
+Proof.
+  intros Hs. unfold line_ok. cbn [starts_percent]. change (eqb kw_initial kw_states) with false.
+  change (eqb kw_initial kw_final) with false. change (eqb kw_initial kw_initial) with true. cbv iota.
+  cbn [orb has_dup mem existsb negb forallb andb]. rewrite Hs. reflexivity.
+Qed.
+
+Lemma build_nfa_intro sre A q0 decl eps :
+  a_states A <> [] -> incl (used_states A) (a_states A) -> (forall s, In s (a_states A) -> sre s = true) ->
+  a_init A = [q0] -> lookup kw_epsilon (a_items A) = Some [eps] -> lookup kw_input_symbols (a_items A) = Some decl ->
+  (forall p a q, In (p, a, q) (a_trans A) -> a = eps \/ In a decl) -> (forall a, In a decl -> re_word a = true) ->
+  ~ In eps decl ->
+  build_nfa sre A = Some (mkTNFA (a_states A) (dedup decl) (group_nfa (a_trans A)) q0 (a_final A) eps).
+Proof.
+  intros Hne Hu Hs Hi Hle Hl Hsym Hre Heps.
+  unfold build_nfa. rewrite (states_or_used_decl _ Hne), (check_common_intro sre _ A q0 Hu Hs Hi). cbn [negb].
+  unfold parse_symbol, get_single. rewrite Hle.
+  unfold get_symbol_set. rewrite Hl.
+  match goal with |- context [subsetb ?u (dedup decl)] => assert (Hsub : subsetb u (dedup decl) = true) end.
+  { apply subsetb_incl. intros a Ha. apply dedup_In. rewrite dedup_In in Ha. apply filter_In in Ha.
+    destruct Ha as [Ha Hne']. apply negb_true_iff, eqb_neq in Hne'.
+    apply in_map_iff in Ha. destruct Ha as [[[p a'] q] [E Hin]]. subst a'.
+    destruct (Hsym p a q Hin) as [Hc|Hc]; [contradiction | exact Hc]. }
+  rewrite Hsub.
+  assert (Hw : forallb re_word (dedup decl) = true).
+  { apply forallb_forall. intros a Ha. apply Hre. rewrite dedup_In in Ha. exact Ha. }
+  rewrite Hw. cbn [negb]. rewrite Hi. cbn [hd].
+  assert (Hwf : tnfa_wf_b (mkTNFA (a_states A) (dedup decl) (group_nfa (a_trans A)) q0 (a_final A) eps) = true).
+  { unfold tnfa_wf_b. cbn [tnQ tnS tnD tnq0 tnF tneps]. rewrite !andb_true_iff. repeat split.
+    - apply mem_In. apply Hu. apply used_states_In. left. rewrite Hi. left; reflexivity.
+    - apply subsetb_incl. intros s Hsf. apply Hu. apply used_states_In. right; left. exact Hsf.
+    - apply negb_true_iff, mem_nIn. rewrite dedup_In. exact Heps.
+    - apply forallb_forall. intros [[p a] s] Hin. apply group_nfa_entry in Hin. destruct Hin as [Hne' Hall].
+      destruct s as [|q s]; [contradiction|].
+      assert (Hq : In (p, a, q) (a_trans A)) by (apply Hall; left; reflexivity).
+      rewrite !andb_true_iff, orb_true_iff, !mem_In. repeat split.
+      + apply Hu. apply used_states_In. right; right. exists p, a, q. auto.
+      + destruct (Hsym p a q Hq) as [-> | Hc]; [right; apply eqb_refl | left; apply dedup_In; exact Hc].
+      + apply subsetb_incl. intros q' Hq'. apply Hu. apply used_states_In. right; right. exists p, a, q'.
+        split; [apply Hall; exact Hq' | auto]. }
+  rewrite Hwf. reflexivity.
+Qed.
+
+Definition tn_step (N : tnfa) (p a q : token) : Prop := has_target (tnD N) (p, a) q.
+Definition tnfa_equiv (N N' : tnfa) : Prop :=
+  seteq (tnQ N) (tnQ N') /\ seteq (tnS N) (tnS N') /\ (forall p a q, tn_step N p a q <-> tn_step N' p a q) /\
+  tnq0 N = tnq0 N' /\ seteq (tnF N) (tnF N') /\ tneps N = tneps N'.
+
+Section RoundTripNFA.
+  Variable ord : list token -> list token.
+  Variable ordP : list (token * token) -> list (token * token).
+  Hypothesis ord_perm : forall l, Permutation (ord l) l.
+  Hypothesis ordP_perm : forall l, Permutation (ordP l) l.
+
+  Definition nfa_trs (N : tnfa) : list (token * token * token) :=
+    flat_map (fun e => let '((p, a), s) := e in map (fun q => (p, a, q)) s) (tnD N).
+
+  Lemma nfa_trs_In N p a q : In (p, a, q) (nfa_trs N) <-> exists s, In ((p, a), s) (tnD N) /\ In q s.
+  Proof.
+    unfold nfa_trs. rewrite in_flat_map. split.
+    - intros [[[p' a'] s] [Hin Hq]]. apply in_map_iff in Hq. destruct Hq as [q' [E Hq]]. inversion E; subst.
+      exists s. auto.
+    - intros [s [Hin Hq]]. exists ((p, a), s). split; [exact Hin|]. apply in_map_iff. exists q. auto.
+  Qed.
+
+  Lemma nfa_trs_step N p a q : NoDup (map fst (tnD N)) -> In (p, a, q) (nfa_trs N) <-> tn_step N p a q.
+  Proof.
+    intros Hn. rewrite nfa_trs_In. unfold tn_step, has_target. split.
+    - intros [s [Hin Hq]]. exists s. split; [apply lookup_NoDup_In; assumption | exact Hq].
+    - intros [s [Hl Hq]]. exists s. split; [apply lookup_In; exact Hl | exact Hq].
+  Qed.
+
+  Theorem print_parse_nfa : forall N,
+    tnfa_wf_b N = true -> NoDup (tnQ N) -> NoDup (tnF N) -> NoDup (map fst (tnD N)) ->
+    (forall q, In q (tnQ N) -> re_word q = true) ->
+    (forall p a s, In ((p, a), s) (tnD N) -> s <> [] -> is_reserved kw_nfa p = false) ->
+    (forall a, In a (tnS N) -> re_word a = true) -> tneps N <> [] ->
+    exists N', parse_nfa (print_nfa ord ordP N) = Some N' /\ tnfa_equiv N N'.
+  Proof.
+    intros N Hwf HnQ HnF HnD HQ Hsrc HS Heps.
+    unfold tnfa_wf_b in Hwf. rewrite !andb_true_iff in Hwf. destruct Hwf as [[[Hq0 HF] HepsS] HD].
+    apply mem_In in Hq0. apply subsetb_incl in HF. apply negb_true_iff, mem_nIn in HepsS. rewrite forallb_forall in HD.
+    assert (HDs : forall p a q, In (p, a, q) (nfa_trs N) -> In p (tnQ N) /\ (a = tneps N \/ In a (tnS N)) /\ In q (tnQ N)).
+    { intros p a q Hin. apply nfa_trs_In in Hin. destruct Hin as [s [Hin Hq]]. specialize (HD _ Hin). cbn in HD.
+      rewrite !andb_true_iff, orb_true_iff, !mem_In in HD. destruct HD as [[Hp Ha] Hs]. apply subsetb_incl in Hs.
+      repeat split; [exact Hp | | apply Hs; exact Hq].
+      destruct Ha as [Ha|Ha]; [right; exact Ha | left; apply eqb_true; exact Ha]. }
+    set (header := [kw_states :: ord (tnQ N); kw_final :: ord (tnF N); [kw_initial; tnq0 N]; kw_input_symbols :: ord (tnS N); [kw_epsilon; tneps N]]).
+    set (items := [(kw_states, ord (tnQ N)); (kw_final, ord (tnF N)); (kw_initial, [tnq0 N]); (kw_input_symbols, ord (tnS N)); (kw_epsilon, [tneps N])]).
+    assert (Hdecl : decls kw_nfa header = items) by reflexivity.
+    assert (HordQ_In : forall q, In q (ord (tnQ N)) <-> In q (tnQ N)) by (intros q; apply (seteq_perm _ _ (ord_perm _))).
+    assert (HordF_In : forall q, In q (ord (tnF N)) <-> In q (tnF N)) by (intros q; apply (seteq_perm _ _ (ord_perm _))).
+    assert (HordS_In : forall q, In q (ord (tnS N)) <-> In q (tnS N)) by (intros q; apply (seteq_perm _ _ (ord_perm _))).
+    assert (HordQ : ord (tnQ N) <> []).
+    { intros E. pose proof (proj2 (HordQ_In _) Hq0) as Hc. rewrite E in Hc. destruct Hc. }
+    assert (Hparse : parse_automaton re_word re_any kw_nfa (print_nfa ord ordP N) =
+                     Some (mkAut (ord (tnQ N)) (regroup ordP (nfa_trs N)) [tnq0 N] (ord (tnF N)) items)).
+    { change (print_nfa ord ordP N) with (header ++ group_lines ordP (nfa_trs N)).
+      refine (eq_trans (parse_printed ordP ordP_perm re_word re_any kw_nfa header (nfa_trs N) _ _ _) _).
+      4:{ rewrite Hdecl. reflexivity. }
+      - intros l Hl. split.
+        + cbn in Hl. destruct Hl as [<-|[<-|[<-|[<-|[<-|[]]]]]]; reflexivity.
+        + cbn [header In] in Hl. destruct Hl as [<-|[<-|[<-|[<-|[<-|[]]]]]].
+          * apply line_ok_states; [exact HordQ | apply (Permutation_NoDup (Permutation_sym (ord_perm _)) HnQ) |].
+            intros q Hq. apply HQ, HordQ_In, Hq.
+          * apply line_ok_final; [apply (Permutation_NoDup (Permutation_sym (ord_perm _)) HnF)|].
+            intros q Hq. apply HQ, HF, HordF_In, Hq.
+          * apply line_ok_initial. apply (HQ _ Hq0).
+          * reflexivity.
+          * reflexivity.
+      - rewrite Hdecl. cbn [map fst items]. apply has_dup_NoDup. reflexivity.
+      - intros p a q Hin. destruct (HDs p a q Hin) as [Hp [Ha Hq]].
+        pose proof (HQ p Hp) as Hpw. pose proof (HQ q Hq) as Hqw.
+        assert (Hpr : is_reserved kw_nfa p = false).
+        { apply (proj1 (nfa_trs_In _ _ _ _)) in Hin. destruct Hin as [s [Hin Hqs]].
+          apply (Hsrc p a s Hin). intros Hc. rewrite Hc in Hqs. destruct Hqs. }
+        repeat split; [apply good_state_trans; assumption | exact Hpw | exact Hqw |].
+        destruct Ha as [-> | Ha]; [|apply re_word_re_any, HS, Ha].
+        destruct (tneps N); [contradiction | reflexivity]. }
+    pose proof (regroup_perm ordP ordP_perm (nfa_trs N)) as Hperm.
+    set (A := mkAut (ord (tnQ N)) (regroup ordP (nfa_trs N)) [tnq0 N] (ord (tnF N)) items) in *.
+    assert (HinT : forall t, In t (a_trans A) <-> In t (nfa_trs N)).
+    { intros t. cbn [A a_trans]. apply (seteq_perm _ _ Hperm). }
+    assert (Hbuild : build_nfa re_word A = Some (mkTNFA (a_states A) (dedup (ord (tnS N))) (group_nfa (a_trans A)) (tnq0 N) (a_final A) (tneps N))).
+    { apply build_nfa_intro.
+      - exact HordQ.
+      - intros s Hs. apply (proj1 (used_states_In _ _)) in Hs. cbn [A a_states a_init a_final] in *. apply HordQ_In.
+        destruct Hs as [[<-|[]]|[Hs|[p [a [q [Ht Hs]]]]]].
+        + exact Hq0.
+        + apply HF, HordF_In, Hs.
+        + apply (proj1 (HinT _)) in Ht. destruct (HDs p a q Ht) as [Hp [_ Hq]]. destruct Hs as [-> | ->]; assumption.
+      - intros s Hs. apply HordQ_In in Hs. apply (HQ s Hs).
+      - reflexivity.
+      - reflexivity.
+      - reflexivity.
+      - intros p a q Hin. apply (proj1 (HinT _)) in Hin. destruct (HDs p a q Hin) as [_ [Ha _]].
+        destruct Ha as [Ha|Ha]; [left; exact Ha | right; apply HordS_In; exact Ha].
+      - intros a Ha. apply HS, HordS_In, Ha.
+      - intros Hc. apply HepsS. apply HordS_In. exact Hc. }
+    eexists. split.
+    - rewrite parse_nfa_unfold, Hparse. exact Hbuild.
+    - unfold tnfa_equiv. cbn [tnQ tnS tnD tnq0 tnF tneps A a_states a_final a_trans].
+      repeat split.
+      + apply HordQ_In.
+      + apply HordQ_In.
+      + intros Hx. apply dedup_In, HordS_In, Hx.
+      + intros Hx. apply HordS_In. rewrite dedup_In in Hx. exact Hx.
+      + intros Hst. unfold tn_step. cbn [tnD]. apply group_nfa_target. apply (seteq_perm _ _ Hperm).
+        apply nfa_trs_step; assumption.
+      + intros Hst. unfold tn_step in Hst. cbn [tnD] in Hst. apply group_nfa_target in Hst.
+        apply (seteq_perm _ _ Hperm) in Hst. apply nfa_trs_step; assumption.
+      + apply HordF_In.
+      + apply HordF_In.
+  Qed.
+End RoundTripNFA.
+
+(* ---- PDA ---- *)
+Definition pda_tuple_of (t : token * token * token) : token * token * token * token * token :=
+  let '(p, l, q) := t in (p, lbl l 0, lbl l 2, q, lbl l 3).
+
+Lemma build_pda_intro sre A q0 declS declG eps :
+  a_states A <> [] -> incl (used_states A) (a_states A) -> (forall s, In s (a_states A) -> sre s = true) ->
+  a_init A = [q0] -> lookup kw_epsilon (a_items A) = Some [eps] ->
+  lookup kw_input_symbols (a_items A) = Some declS -> lookup kw_stack_symbols (a_items A) = Some declG ->
+  (forall p l q, In (p, l, q) (a_trans A) ->
+     (lbl l 0 = eps \/ In (lbl l 0) declS) /\ (lbl l 2 = eps \/ In (lbl l 2) declG) /\ (lbl l 3 = eps \/ In (lbl l 3) declG)) ->
+  (forall a, In a declS -> re_word a = true) -> ~ In eps declS -> ~ In eps declG ->
+  build_pda sre A = Some (mkTPDA (a_states A) (dedup declS) (dedup declG) (dedup (map pda_tuple_of (a_trans A))) q0 (a_final A) eps).
+Proof.
+  intros Hne Hu Hs Hi Hle HlS HlG Hsym Hre HepsS HepsG.
+  unfold build_pda. rewrite (states_or_used_decl _ Hne), (check_common_intro sre _ A q0 Hu Hs Hi). cbn [negb].
+  unfold parse_symbol, get_single. rewrite Hle.
+  unfold get_symbol_set. rewrite HlS, HlG.
+  match goal with |- context [subsetb ?u (dedup declS)] => assert (Hsub : subsetb u (dedup declS) = true) end.
+  { apply subsetb_incl. intros a Ha. apply dedup_In. rewrite dedup_In in Ha. apply filter_In in Ha.
+    destruct Ha as [Ha Hne']. apply negb_true_iff, eqb_neq in Hne'.
+    apply in_map_iff in Ha. destruct Ha as [l [<- Hl]].
+    apply in_map_iff in Hl. destruct Hl as [[[p l'] q] [E Hin]]. subst l'.
+    destruct (Hsym p l q Hin) as [[Hc|Hc] _]; [contradiction | exact Hc]. }
+  rewrite Hsub.
+  match goal with |- context [subsetb ?u (dedup declG)] => assert (Hsub2 : subsetb u (dedup declG) = true) end.
+  { apply subsetb_incl. intros a Ha. apply dedup_In. rewrite dedup_In in Ha. apply filter_In in Ha.
+    destruct Ha as [Ha Hne']. apply negb_true_iff, eqb_neq in Hne'.
+    apply in_flat_map in Ha. destruct Ha as [l [Hl Ha]].
+    apply in_map_iff in Hl. destruct Hl as [[[p l'] q] [E Hin]]. subst l'.
+    destruct (Hsym p l q Hin) as [_ [H2 H3]].
+    destruct Ha as [<-|[<-|[]]]; [destruct H2 as [Hc|Hc] | destruct H3 as [Hc|Hc]]; try contradiction; exact Hc. }
+  rewrite Hsub2.
+  assert (Hw : forallb re_word (dedup declS) = true).
+  { apply forallb_forall. intros a Ha. apply Hre. rewrite dedup_In in Ha. exact Ha. }
+  rewrite Hw. cbn [negb]. rewrite Hi. cbn [hd].
+  change (map (fun t : token * token * token => let '(p, l, q) := t in (p, lbl l 0, lbl l 2, q, lbl l 3)) (a_trans A))
+    with (map pda_tuple_of (a_trans A)).
+  assert (Hwf : tpda_wf_b (mkTPDA (a_states A) (dedup declS) (dedup declG) (dedup (map pda_tuple_of (a_trans A))) q0 (a_final A) eps) = true).
+  { unfold tpda_wf_b. cbn [tpQ tpS tpG tpD tpq0 tpF tpeps]. rewrite !andb_true_iff. repeat split.
+    - apply mem_In. apply Hu. apply used_states_In. left. rewrite Hi. left; reflexivity.
+    - apply negb_true_iff, mem_nIn. rewrite dedup_In. exact HepsS.
+    - apply negb_true_iff, mem_nIn. rewrite dedup_In. exact HepsG.
+    - apply subsetb_incl. intros s Hsf. apply Hu. apply used_states_In. right; left. exact Hsf.
+    - apply forallb_forall. intros [[[[p a] u] q] v] Hin. rewrite dedup_In in Hin.
+      apply in_map_iff in Hin. destruct Hin as [[[p' l] q'] [E Hin]]. cbn in E. inversion E; subst p' q' a u v.
+      destruct (Hsym p l q Hin) as [H0 [H2 H3]].
+      rewrite !andb_true_iff, !orb_true_iff, !mem_In, !dedup_In. repeat split.
+      + apply Hu. apply used_states_In. right; right. exists p, l, q. auto.
+      + destruct H0 as [-> | Hc]; [right; apply eqb_refl | left; exact Hc].
+      + destruct H2 as [-> | Hc]; [right; apply eqb_refl | left; exact Hc].
+      + apply Hu. apply used_states_In. right; right. exists p, l, q. auto.
+      + destruct H3 as [-> | Hc]; [right; apply eqb_refl | left; exact Hc]. }
+  rewrite Hwf. reflexivity.
+Qed.
+
+Definition tpda_equiv (P P' : tpda) : Prop :=
+  seteq (tpQ P) (tpQ P') /\ seteq (tpS P) (tpS P') /\ seteq (tpG P) (tpG P') /\ seteq (tpD P) (tpD P') /\
+  tpq0 P = tpq0 P' /\ seteq (tpF P) (tpF P') /\ tpeps P = tpeps P'.
+
+Definition single_w (a : token) : Prop := exists c, a = [c] /\ is_w c = true.
+Definition single_sym (a : token) : Prop := exists c, a = [c] /\ is_sym_char c = true.
+
+Lemma single_w_sym a : single_w a -> single_sym a.
+Proof. intros [c [-> Hc]]. exists c. split; [reflexivity|]. unfold is_sym_char. rewrite Hc. reflexivity. Qed.
+
+Lemma single_w_re_word a : single_w a -> re_word a = true.
+Proof. intros [c [-> Hc]]. cbn. rewrite Hc. reflexivity. Qed.
+
+Section RoundTripPDA.
+  Variable ord : list token -> list token.
+  Variable ordP : list (token * token) -> list (token * token).
+  Hypothesis ord_perm : forall l, Permutation (ord l) l.
+  Hypothesis ordP_perm : forall l, Permutation (ordP l) l.
+
+  Definition pda_line_of (t : token * token * token * token * token) : token * token * token :=
+    let '(p, a, u, q, v) := t in (p, pda_label a u v, q).
+  Definition pda_trs (P : tpda) : list (token * token * token) := map pda_line_of (tpD P).
+
+  Lemma pda_tuple_line a u v p q :
+    single_w a -> single_sym u -> single_sym v ->
+    pda_tuple_of (pda_line_of (p, a, u, q, v)) = (p, a, u, q, v) /\ re_pda_label (pda_label a u v) = true.
+  Proof.
+    intros [ca [-> Ha]] [cu [-> Hu]] [cv [-> Hv]]. split; [reflexivity|].
+    cbn. rewrite Ha, Hu, Hv. reflexivity.
+  Qed.
+
+  Lemma pda_label_lbl a u v :
+    single_w a -> single_sym u -> single_sym v ->
+    lbl (pda_label a u v) 0 = a /\ lbl (pda_label a u v) 2 = u /\ lbl (pda_label a u v) 3 = v.
+  Proof. intros [ca [-> Ha]] [cu [-> Hu]] [cv [-> Hv]]. repeat split; reflexivity. Qed.
+
+  Theorem print_parse_pda : forall P,
+    tpda_wf_b P = true -> NoDup (tpQ P) -> NoDup (tpF P) ->
+    (forall q, In q (tpQ P) -> re_word q = true) ->
+    (forall p a u q v, In (p, a, u, q, v) (tpD P) -> is_reserved kw_pda p = false) ->
+    (forall a, In a (tpS P) -> single_w a) -> (forall u, In u (tpG P) -> single_sym u) -> single_w (tpeps P) ->
+    exists P', parse_pda (print_pda ord ordP P) = Some P' /\ tpda_equiv P P'.
+  Proof.
+    intros P Hwf HnQ HnF HQ Hsrc HS HG Heps.
+    unfold tpda_wf_b in Hwf. rewrite !andb_true_iff in Hwf. destruct Hwf as [[[[Hq0 HepsS] HepsG] HF] HD].
+    apply mem_In in Hq0. apply subsetb_incl in HF. apply negb_true_iff, mem_nIn in HepsS. apply negb_true_iff, mem_nIn in HepsG.
+    rewrite forallb_forall in HD.
+    assert (HDs : forall p a u q v, In (p, a, u, q, v) (tpD P) ->
+              In p (tpQ P) /\ (a = tpeps P \/ In a (tpS P)) /\ (u = tpeps P \/ In u (tpG P)) /\ In q (tpQ P) /\ (v = tpeps P \/ In v (tpG P))).
+    { intros p a u q v Hin. specialize (HD _ Hin). cbn in HD.
+      rewrite !andb_true_iff, !orb_true_iff, !mem_In in HD. destruct HD as [[[[Hp Ha] Hu] Hq] Hv].
+      repeat split; try assumption.
+      - destruct Ha as [Ha|Ha]; [right; exact Ha | left; apply eqb_true; exact Ha].
+      - destruct Hu as [Hu|Hu]; [right; exact Hu | left; apply eqb_true; exact Hu].
+      - destruct Hv as [Hv|Hv]; [right; exact Hv | left; apply eqb_true; exact Hv]. }
+    assert (Hsingle : forall p a u q v, In (p, a, u, q, v) (tpD P) -> single_w a /\ single_sym u /\ single_sym v).
+    { intros p a u q v Hin. destruct (HDs _ _ _ _ _ Hin) as [_ [Ha [Hu [_ Hv]]]]. repeat split.
+      - destruct Ha as [-> | Ha]; [exact Heps | apply HS, Ha].
+      - destruct Hu as [-> | Hu]; [apply single_w_sym, Heps | apply HG, Hu].
+      - destruct Hv as [-> | Hv]; [apply single_w_sym, Heps | apply HG, Hv]. }
+    set (header := [kw_states :: ord (tpQ P); kw_final :: ord (tpF P); [kw_initial; tpq0 P]; kw_input_symbols :: ord (tpS P);
+                    kw_stack_symbols :: ord (tpG P); [kw_epsilon; tpeps P]]).
+    set (items := [(kw_states, ord (tpQ P)); (kw_final, ord (tpF P)); (kw_initial, [tpq0 P]); (kw_input_symbols, ord (tpS P));
+                   (kw_stack_symbols, ord (tpG P)); (kw_epsilon, [tpeps P])]).
+    assert (Hdecl : decls kw_pda header = items) by reflexivity.
+    assert (HordQ_In : forall q, In q (ord (tpQ P)) <-> In q (tpQ P)) by (intros q; apply (seteq_perm _ _ (ord_perm _))).
+    assert (HordF_In : forall q, In q (ord (tpF P)) <-> In q (tpF P)) by (intros q; apply (seteq_perm _ _ (ord_perm _))).
+    assert (HordS_In : forall q, In q (ord (tpS P)) <-> In q (tpS P)) by (intros q; apply (seteq_perm _ _ (ord_perm _))).
+    assert (HordG_In : forall q, In q (ord (tpG P)) <-> In q (tpG P)) by (intros q; apply (seteq_perm _ _ (ord_perm _))).
+    assert (HordQ : ord (tpQ P) <> []).
+    { intros E. pose proof (proj2 (HordQ_In _) Hq0) as Hc. rewrite E in Hc. destruct Hc. }
+    assert (Htrs : forall p l q, In (p, l, q) (pda_trs P) ->
+              exists a u v, l = pda_label a u v /\ In (p, a, u, q, v) (tpD P)).
+    { intros p l q Hin. unfold pda_trs in Hin. apply in_map_iff in Hin.
+      destruct Hin as [[[[[p' a] u] q'] v] [E Hin]]. cbn in E. inversion E; subst. exists a, u, v. auto. }
+    assert (Hparse : parse_automaton re_word re_pda_label kw_pda (print_pda ord ordP P) =
+                     Some (mkAut (ord (tpQ P)) (regroup ordP (pda_trs P)) [tpq0 P] (ord (tpF P)) items)).
+    { change (print_pda ord ordP P) with (header ++ group_lines ordP (pda_trs P)).
+      refine (eq_trans (parse_printed ordP ordP_perm re_word re_pda_label kw_pda header (pda_trs P) _ _ _) _).
+      4:{ rewrite Hdecl. reflexivity. }
+      - intros l Hl. split.
+        + cbn in Hl. destruct Hl as [<-|[<-|[<-|[<-|[<-|[<-|[]]]]]]]; reflexivity.
+        + cbn [header In] in Hl. destruct Hl as [<-|[<-|[<-|[<-|[<-|[<-|[]]]]]]].
+          * apply line_ok_states; [exact HordQ | apply (Permutation_NoDup (Permutation_sym (ord_perm _)) HnQ) |].
+            intros q Hq. apply HQ, HordQ_In, Hq.
+          * apply line_ok_final; [apply (Permutation_NoDup (Permutation_sym (ord_perm _)) HnF)|].
+            intros q Hq. apply HQ, HF, HordF_In, Hq.
+          * apply line_ok_initial. apply (HQ _ Hq0).
+          * reflexivity.
+          * reflexivity.
+          * reflexivity.
+      - rewrite Hdecl. cbn [map fst items]. apply has_dup_NoDup. reflexivity.
+      - intros p l q Hin. destruct (Htrs p l q Hin) as [a [u [v [-> Hin']]]].
+        destruct (HDs _ _ _ _ _ Hin') as [Hp [_ [_ [Hq _]]]].
+        destruct (Hsingle _ _ _ _ _ Hin') as [Ha [Hu Hv]].
+        pose proof (HQ p Hp) as Hpw. pose proof (Hsrc _ _ _ _ _ Hin') as Hpr. pose proof (HQ q Hq) as Hqw.
+        repeat split; [apply good_state_trans; assumption | exact Hpw | exact Hqw |].
+        apply (pda_tuple_line a u v p q Ha Hu Hv). }
+    pose proof (regroup_perm ordP ordP_perm (pda_trs P)) as Hperm.
+    set (A := mkAut (ord (tpQ P)) (regroup ordP (pda_trs P)) [tpq0 P] (ord (tpF P)) items) in *.
+    assert (HinT : forall t, In t (a_trans A) <-> In t (pda_trs P)).
+    { intros t. cbn [A a_trans]. apply (seteq_perm _ _ Hperm). }
+    assert (Hbuild : build_pda re_word A = Some (mkTPDA (a_states A) (dedup (ord (tpS P))) (dedup (ord (tpG P)))
+                        (dedup (map pda_tuple_of (a_trans A))) (tpq0 P) (a_final A) (tpeps P))).
+    { apply build_pda_intro.
+      - exact HordQ.
+      - intros s Hs. apply (proj1 (used_states_In _ _)) in Hs. cbn [A a_states a_init a_final] in *. apply HordQ_In.
+        destruct Hs as [[<-|[]]|[Hs|[p [l [q [Ht Hs]]]]]].
+        + exact Hq0.
+        + apply HF, HordF_In, Hs.
+        + apply (proj1 (HinT _)) in Ht. destruct (Htrs p l q Ht) as [a [u [v [_ Hin']]]].
+          destruct (HDs _ _ _ _ _ Hin') as [Hp [_ [_ [Hq _]]]]. destruct Hs as [-> | ->]; assumption.
+      - intros s Hs. apply HordQ_In in Hs. apply (HQ s Hs).
+      - reflexivity.
+      - reflexivity.
+      - reflexivity.
+      - reflexivity.
+      - intros p l q Hin. apply (proj1 (HinT _)) in Hin. destruct (Htrs p l q Hin) as [a [u [v [-> Hin']]]].
+        destruct (Hsingle _ _ _ _ _ Hin') as [Ha [Hu Hv]].
+        destruct (HDs _ _ _ _ _ Hin') as [_ [Ha' [Hu' [_ Hv']]]].
+        destruct (pda_label_lbl a u v Ha Hu Hv) as [E0 [E2 E3]].
+        rewrite E0, E2, E3. rewrite HordS_In, !HordG_In. tauto.
+      - intros a Ha. apply single_w_re_word, HS, HordS_In, Ha.
+      - intros Hc. apply HepsS. apply HordS_In. exact Hc.
+      - intros Hc. apply HepsG. apply HordG_In. exact Hc. }
+    eexists. split.
+    - rewrite parse_pda_unfold, Hparse. exact Hbuild.
+    - unfold tpda_equiv. cbn [tpQ tpS tpG tpD tpq0 tpF tpeps A a_states a_final a_trans].
+      assert (HDeq : forall t, In t (tpD P) <-> In t (dedup (map pda_tuple_of (regroup ordP (pda_trs P))))).
+      { intros t. rewrite dedup_In, in_map_iff. split.
+        - intros Hin. destruct t as [[[[p a] u] q] v]. exists (pda_line_of (p, a, u, q, v)). split.
+          + destruct (Hsingle _ _ _ _ _ Hin) as [Ha [Hu Hv]]. apply (pda_tuple_line a u v p q Ha Hu Hv).
+          + apply (seteq_perm _ _ Hperm). unfold pda_trs. apply in_map. exact Hin.
+        - intros [[[p l] q] [E Hin]]. apply (seteq_perm _ _ Hperm) in Hin.
+          destruct (Htrs p l q Hin) as [a [u [v [-> Hin']]]].
+          destruct (Hsingle _ _ _ _ _ Hin') as [Ha [Hu Hv]].
+          destruct (pda_tuple_line a u v p q Ha Hu Hv) as [E' _]. unfold pda_line_of in E'. rewrite E' in E. subst t. exact Hin'. }
+      repeat split; try (apply HordQ_In); try (apply HordF_In); try (apply HDeq).
+      + intros Hx. apply dedup_In, HordS_In, Hx.
+      + intros Hx. apply HordS_In. rewrite dedup_In in Hx. exact Hx.
+      + intros Hx. apply dedup_In, HordG_In, Hx.
+      + intros Hx. apply HordG_In. rewrite dedup_In in Hx. exact Hx.
+  Qed.
+End RoundTripPDA.
+
+(* ---- TM ---- *)
+Section FoldUpdate.
+  Context {X K V : Type} `{Eqb K}.
+  Variables (key : X -> K) (val : X -> V).
+  Definition fold_update (l : list X) (d : list (K * V)) : list (K * V) :=
+    fold_left (fun d x => update (key x) (val x) d) l d.
+
+  Lemma fold_update_In l : forall d k v, In (k, v) (fold_update l d) -> In (k, v) d \/ exists x, In x l /\ key x = k /\ val x = v.
+  Proof.
+    induction l as [|x l IH]; intros d k v Hin; cbn [fold_update fold_left] in Hin; [left; exact Hin|].
+    destruct (IH _ _ _ Hin) as [Hd|[y [Hy [Hk Hv]]]].
+    - apply update_In in Hd. destruct Hd as [[-> ->]|Hd]; [right; exists x; cbn; auto | left; exact Hd].
+    - right. exists y. cbn; auto.
+  Qed.
+
+  Lemma fold_update_lookup l : NoDup (map key l) -> forall d k v,
+    lookup k (fold_update l d) = Some v <->
+    (exists x, In x l /\ key x = k /\ val x = v) \/ ((forall x, In x l -> key x <> k) /\ lookup k d = Some v).
+  Proof.
+    induction l as [|x l IH]; intros Hn d k v.
+    - cbn [fold_update fold_left]. split.
+      + intros Hl. right. split; [intros x [] | exact Hl].
+      + intros [[x [[] _]]|[_ Hl]]; exact Hl.
+    - cbn [map] in Hn. inversion Hn as [|y l' Hx Hl']; subst.
+      cbn [fold_update fold_left]. fold (fold_update l (update (key x) (val x) d)).
+      rewrite (IH Hl'), lookup_update.
+      assert (Hfresh : forall y, In y l -> key y <> key x).
+      { intros y Hy Hc. apply Hx. rewrite <- Hc. apply in_map. exact Hy. }
+      destruct (eqb k (key x)) eqn:Ek.
+      + apply eqb_true in Ek. subst k. split.
+        * intros [[y [Hy [Hk _]]]|[_ Hv]]; [exfalso; apply (Hfresh y Hy Hk)|].
+          inversion Hv; subst. left. exists x. cbn; auto.
+        * intros [[y [[<-|Hy] [Hk Hv]]]|[Hno _]].
+          -- right. split; [exact Hfresh | rewrite Hv; reflexivity].
+          -- exfalso; apply (Hfresh y Hy Hk).
+          -- exfalso. apply (Hno x (or_introl eq_refl)). reflexivity.
+      + apply eqb_neq in Ek. split.
+        * intros [[y [Hy [Hk Hv]]]|[Hno Hv]].
+          -- left. exists y. cbn; auto.
+          -- right. split; [|exact Hv]. intros y [<-|Hy]; [congruence | apply Hno, Hy].
+        * intros [[y [[<-|Hy] [Hk Hv]]]|[Hno Hv]].
+          -- congruence.
+          -- left. exists y. auto.
+          -- right. split; [|exact Hv]. intros y Hy. apply Hno. right; exact Hy.
+  Qed.
+End FoldUpdate.
+
+Definition tm_key (t : token * token * token) : token * token := let '(p, l, _) := t in (p, lbl l 0).
+Definition tm_val (t : token * token * token) : token * token * bool :=
+  let '(_, l, q) := t in (q, lbl l 1, match nth_error l 3 with Some c => Nat.eqb c c_L | None => false end).
+Definition tm_delta_of (trs : list (token * token * token)) : list ((token * token) * (token * token * bool)) :=
+  fold_update tm_key tm_val trs [].
+
+Lemma fold_left_ext {X Y} (f g : Y -> X -> Y) l : (forall d x, f d x = g d x) -> forall d, fold_left f l d = fold_left g l d.
+Proof. intros He. induction l as [|x l IH]; intros d; [reflexivity|]. cbn [fold_left]. rewrite He. apply IH. Qed.
+
+Lemma tm_states_decl A qa qr : a_states A <> [] -> tm_states A qa qr = a_states A.
+Proof. unfold tm_states. destruct (a_states A); [contradiction | reflexivity]. Qed.
+
+Lemma build_tm_intro sre A q0 qa qr blank declS declG :
+  a_states A <> [] -> incl (used_states A) (a_states A) -> (forall s, In s (a_states A) -> sre s = true) ->
+  a_init A = [q0] -> lookup kw_accept (a_items A) = Some [qa] -> lookup kw_reject (a_items A) = Some [qr] ->
+  lookup kw_blank (a_items A) = Some [blank] -> lookup kw_tape_symbols (a_items A) = Some declG ->
+  lookup kw_input_symbols (a_items A) = Some declS ->
+  (forall p l q, In (p, l, q) (a_trans A) -> In (lbl l 0) declG /\ In (lbl l 1) declG) ->
+  In qa (a_states A) -> In qr (a_states A) -> qr <> qa -> ~ In blank declS -> incl declS declG ->
+  build_tm sre A = Some (mkTTM (a_states A) (dedup declS) (add blank (dedup declG)) (tm_delta_of (a_trans A)) q0 qa qr blank).
+Proof.
+  intros Hne Hu Hs Hi Hla Hlr Hlb HlG HlS Hsym Hqa Hqr Hneq HbS HSG.
+  unfold build_tm, get_single. rewrite Hla, Hlr.
+  fold (tm_states A qa qr). rewrite (tm_states_decl A qa qr Hne), (check_common_intro sre _ A q0 Hu Hs Hi). cbn [negb].
+  unfold parse_symbol, get_single. rewrite Hlb.
+  unfold get_symbol_set. rewrite HlG, HlS.
+  match goal with |- context [subsetb ?u (dedup declG)] => assert (Hsub : subsetb u (dedup declG) = true) end.
+  { apply subsetb_incl. intros a Ha. apply dedup_In. rewrite dedup_In in Ha.
+    apply in_flat_map in Ha. destruct Ha as [l [Hl Ha]].
+    apply in_map_iff in Hl. destruct Hl as [[[p l'] q] [E Hin]]. subst l'.
+    destruct (Hsym p l q Hin) as [H0 H1]. destruct Ha as [<-|[<-|[]]]; assumption. }
+  rewrite Hsub. rewrite Hi. cbn [hd].
+  match goal with |- context [mkTTM _ _ _ ?d _ _ _ _] => assert (Hd : d = tm_delta_of (a_trans A)) end.
+  { unfold tm_delta_of, fold_update. apply fold_left_ext. intros d [[p l] q]. reflexivity. }
+  rewrite Hd.
+  assert (Hwf : ttm_wf_b (mkTTM (a_states A) (dedup declS) (add blank (dedup declG)) (tm_delta_of (a_trans A)) q0 qa qr blank) = true).
+  { unfold ttm_wf_b. cbn [ttQ ttS ttG ttD ttq0 ttqa ttqr ttblank]. rewrite !andb_true_iff. repeat split.
+    - apply mem_In. apply Hu. apply used_states_In. left. rewrite Hi. left; reflexivity.
+    - apply mem_In; exact Hqa.
+    - apply mem_In; exact Hqr.
+    - apply negb_true_iff, eqb_neq. exact Hneq.
+    - apply negb_true_iff, mem_nIn. rewrite dedup_In. exact HbS.
+    - apply mem_In, add_In. left; reflexivity.
+    - apply subsetb_incl. intros a Ha. rewrite dedup_In in Ha. apply add_In. right. apply dedup_In, HSG, Ha.
+    - apply forallb_forall. intros [[p a] [[q b] d]] Hin. unfold tm_delta_of in Hin.
+      apply fold_update_In in Hin. destruct Hin as [[]|[[[p' l] q'] [Hin [Ek Ev]]]].
+      cbn in Ek, Ev. inversion Ek; subst p' a. inversion Ev; subst q' b d.
+      destruct (Hsym p l q Hin) as [H0 H1].
+      rewrite !andb_true_iff, !mem_In. repeat split.
+      + apply Hu. apply used_states_In. right; right. exists p, l, q. auto.
+      + apply add_In. right. apply dedup_In, H0.
+      + apply Hu. apply used_states_In. right; right. exists p, l, q. auto.
+      + apply add_In. right. apply dedup_In, H1. }
+  rewrite Hwf. reflexivity.
+Qed.
+
+Definition ttm_equiv (T T' : ttm) : Prop :=
+  seteq (ttQ T) (ttQ T') /\ seteq (ttS T) (ttS T') /\ seteq (ttG T) (ttG T') /\
+  (forall k, lookup k (ttD T) = lookup k (ttD T')) /\
+  ttq0 T = ttq0 T' /\ ttqa T = ttqa T' /\ ttqr T = ttqr T' /\ ttblank T = ttblank T'.
+
+Definition single_tm (a : token) : Prop := exists c, a = [c] /\ is_tm_char c = true.
+
+Section RoundTripTM.
+  Variable ord : list token -> list token.
+  Variable ordP : list (token * token) -> list (token * token).
+  Hypothesis ord_perm : forall l, Permutation (ord l) l.
+  Hypothesis ordP_perm : forall l, Permutation (ordP l) l.
+
+  Definition tm_line_of (e : (token * token) * (token * token * bool)) : token * token * token :=
+    let '((p, a), (q, b, d)) := e in (p, tm_label a b d, q).
+  Definition tm_trs (T : ttm) : list (token * token * token) := map tm_line_of (ttD T).
+
+  Lemma tm_label_facts a b d p q :
+    single_tm a -> single_tm b ->
+    re_tm_label (tm_label a b d) = true /\ tm_key (tm_line_of ((p, a), (q, b, d))) = (p, a) /\
+    tm_val (tm_line_of ((p, a), (q, b, d))) = (q, b, d) /\ lbl (tm_label a b d) 0 = a /\ lbl (tm_label a b d) 1 = b.
+  Proof.
+    intros [ca [-> Ha]] [cb [-> Hb]]. repeat split; try reflexivity.
+    - cbn. rewrite Ha, Hb. destruct d; reflexivity.
+    - destruct d; reflexivity.
+  Qed.
+
+  Theorem print_parse_tm : forall T,
+    ttm_wf_b T = true -> NoDup (ttQ T) -> NoDup (map fst (ttD T)) ->
+    (forall q, In q (ttQ T) -> re_word q = true) ->
+    (forall p a v, In ((p, a), v) (ttD T) -> is_reserved kw_tm p = false) ->
+    (forall g, In g (ttG T) -> single_tm g) ->
+    exists T', parse_tm (print_tm ord ordP T) = Some T' /\ ttm_equiv T T'.
+  Proof.
+    intros T Hwf HnQ HnD HQ Hsrc HG.
+    unfold ttm_wf_b in Hwf. rewrite !andb_true_iff in Hwf.
+    destruct Hwf as [[[[[[[Hq0 Hqa] Hqr] Hneq] HbS] HbG] HSG] HD].
+    apply mem_In in Hq0. apply mem_In in Hqa. apply mem_In in Hqr. apply negb_true_iff, eqb_neq in Hneq.
+    apply negb_true_iff, mem_nIn in HbS. apply mem_In in HbG. apply subsetb_incl in HSG. rewrite forallb_forall in HD.
+    assert (HDs : forall p a q b d, In ((p, a), (q, b, d)) (ttD T) -> In p (ttQ T) /\ In a (ttG T) /\ In q (ttQ T) /\ In b (ttG T)).
+    { intros p a q b d Hin. specialize (HD _ Hin). cbn in HD. rewrite !andb_true_iff, !mem_In in HD. tauto. }
+    set (header := [kw_states :: ord (ttQ T); [kw_initial; ttq0 T]; [kw_accept; ttqa T]; [kw_reject; ttqr T]; kw_input_symbols :: ord (ttS T);
+                    kw_tape_symbols :: ord (ttG T); [kw_blank; ttblank T]]).
+    set (items := [(kw_states, ord (ttQ T)); (kw_initial, [ttq0 T]); (kw_accept, [ttqa T]); (kw_reject, [ttqr T]); (kw_input_symbols, ord (ttS T));
+                   (kw_tape_symbols, ord (ttG T)); (kw_blank, [ttblank T])]).
+    assert (Hdecl : decls kw_tm header = items) by reflexivity.
+    assert (HordQ_In : forall q, In q (ord (ttQ T)) <-> In q (ttQ T)) by (intros q; apply (seteq_perm _ _ (ord_perm _))).
+    assert (HordS_In : forall q, In q (ord (ttS T)) <-> In q (ttS T)) by (intros q; apply (seteq_perm _ _ (ord_perm _))).
+    assert (HordG_In : forall q, In q (ord (ttG T)) <-> In q (ttG T)) by (intros q; apply (seteq_perm _ _ (ord_perm _))).
+    assert (HordQ : ord (ttQ T) <> []).
+    { intros E. pose proof (proj2 (HordQ_In _) Hq0) as Hc. rewrite E in Hc. destruct Hc. }
+    assert (Htrs : forall p l q, In (p, l, q) (tm_trs T) ->
+              exists a b d, l = tm_label a b d /\ In ((p, a), (q, b, d)) (ttD T)).
+    { intros p l q Hin. unfold tm_trs in Hin. apply in_map_iff in Hin.
+      destruct Hin as [[[p' a] [[q' b] d]] [E Hin]]. cbn in E. inversion E; subst. exists a, b, d. auto. }
+    assert (Hparse : parse_automaton re_word re_tm_label kw_tm (print_tm ord ordP T) =
+                     Some (mkAut (ord (ttQ T)) (regroup ordP (tm_trs T)) [ttq0 T] [] items)).
+    { change (print_tm ord ordP T) with (header ++ group_lines ordP (tm_trs T)).
+      refine (eq_trans (parse_printed ordP ordP_perm re_word re_tm_label kw_tm header (tm_trs T) _ _ _) _).
+      4:{ rewrite Hdecl. reflexivity. }
+      - intros l Hl. split.
+        + cbn in Hl. destruct Hl as [<-|[<-|[<-|[<-|[<-|[<-|[<-|[]]]]]]]]; reflexivity.
+        + cbn [header In] in Hl. destruct Hl as [<-|[<-|[<-|[<-|[<-|[<-|[<-|[]]]]]]]]; try reflexivity.
+          * apply line_ok_states; [exact HordQ | apply (Permutation_NoDup (Permutation_sym (ord_perm _)) HnQ) |].
+            intros q Hq. apply HQ, HordQ_In, Hq.
+          * apply line_ok_initial. apply (HQ _ Hq0).
+      - rewrite Hdecl. cbn [map fst items]. apply has_dup_NoDup. reflexivity.
+      - intros p l q Hin. destruct (Htrs p l q Hin) as [a [b [d [-> Hin']]]].
+        destruct (HDs _ _ _ _ _ Hin') as [Hp [Ha [Hq Hb]]].
+        repeat split; [apply good_state_trans; [apply HQ, Hp | apply (Hsrc _ _ _ Hin')] | apply HQ, Hp | apply HQ, Hq |].
+        apply (tm_label_facts a b d p q (HG _ Ha) (HG _ Hb)). }
+    pose proof (regroup_perm ordP ordP_perm (tm_trs T)) as Hperm.
+    set (A := mkAut (ord (ttQ T)) (regroup ordP (tm_trs T)) [ttq0 T] [] items) in *.
+    assert (HinT : forall t, In t (a_trans A) <-> In t (tm_trs T)).
+    { intros t. cbn [A a_trans]. apply (seteq_perm _ _ Hperm). }
+    assert (Hbuild : build_tm re_word A = Some (mkTTM (a_states A) (dedup (ord (ttS T))) (add (ttblank T) (dedup (ord (ttG T))))
+                        (tm_delta_of (a_trans A)) (ttq0 T) (ttqa T) (ttqr T) (ttblank T))).
+    { apply build_tm_intro.
+      - exact HordQ.
+      - intros s Hs. apply (proj1 (used_states_In _ _)) in Hs. cbn [A a_states a_init a_final] in *. apply HordQ_In.
+        destruct Hs as [[<-|[]]|[[]|[p [l [q [Ht Hs]]]]]].
+        + exact Hq0.
+        + apply (proj1 (HinT _)) in Ht. destruct (Htrs p l q Ht) as [a [b [d [_ Hin']]]].
+          destruct (HDs _ _ _ _ _ Hin') as [Hp [_ [Hq _]]]. destruct Hs as [-> | ->]; assumption.
+      - intros s Hs. apply HordQ_In in Hs. apply (HQ s Hs).
+      - reflexivity.
+      - reflexivity.
+      - reflexivity.
+      - reflexivity.
+      - reflexivity.
+      - reflexivity.
+      - intros p l q Hin. apply (proj1 (HinT _)) in Hin. destruct (Htrs p l q Hin) as [a [b [d [-> Hin']]]].
+        destruct (HDs _ _ _ _ _ Hin') as [_ [Ha [_ Hb]]].
+        destruct (tm_label_facts a b d p q (HG _ Ha) (HG _ Hb)) as [_ [_ [_ [E0 E1]]]].
+        rewrite E0, E1, !HordG_In. auto.
+      - apply HordQ_In, Hqa.
+      - apply HordQ_In, Hqr.
+      - exact Hneq.
+      - intros Hc. apply HbS. apply HordS_In. exact Hc.
+      - intros a Ha. apply HordG_In, HSG, HordS_In, Ha. }
+    eexists. split.
+    - rewrite parse_tm_unfold, Hparse. exact Hbuild.
+    - unfold ttm_equiv. cbn [ttQ ttS ttG ttD ttq0 ttqa ttqr ttblank A a_states a_final a_trans].
+      assert (Hkeys : NoDup (map tm_key (regroup ordP (tm_trs T)))).
+      { apply (Permutation_NoDup (Permutation_sym (Permutation_map tm_key Hperm))).
+        unfold tm_trs. rewrite map_map.
+        assert (E : map (fun x => tm_key (tm_line_of x)) (ttD T) = map fst (ttD T)).
+        { apply map_ext_in. intros [[p a] [[q b] d]] Hin. destruct (HDs _ _ _ _ _ Hin) as [_ [Ha [_ Hb]]].
+          apply (tm_label_facts a b d p q (HG _ Ha) (HG _ Hb)). }
+        rewrite E. exact HnD. }
+      assert (Hlk : forall k v, lookup k (tm_delta_of (regroup ordP (tm_trs T))) = Some v <-> In (k, v) (ttD T)).
+      { intros k v. unfold tm_delta_of. rewrite (fold_update_lookup tm_key tm_val _ Hkeys). cbn [lookup]. split.
+        - intros [[x [Hx [Hk Hv]]]|[_ Hc]]; [|discriminate].
+          apply (seteq_perm _ _ Hperm) in Hx. unfold tm_trs in Hx. apply in_map_iff in Hx.
+          destruct Hx as [[[p a] [[q b] d]] [<- Hin]]. destruct (HDs _ _ _ _ _ Hin) as [_ [Ha [_ Hb]]].
+          destruct (tm_label_facts a b d p q (HG _ Ha) (HG _ Hb)) as [_ [E1 [E2 _]]].
+          rewrite E1 in Hk. rewrite E2 in Hv. subst k v. exact Hin.
+        - intros Hin. left. exists (tm_line_of (k, v)). split.
+          + apply (seteq_perm _ _ Hperm). unfold tm_trs. apply in_map. exact Hin.
+          + destruct k as [p a]. destruct v as [[q b] d]. destruct (HDs _ _ _ _ _ Hin) as [_ [Ha [_ Hb]]].
+            destruct (tm_label_facts a b d p q (HG _ Ha) (HG _ Hb)) as [_ [E1 [E2 _]]]. auto. }
+      repeat split; try (apply HordQ_In).
+      + intros Hx. apply dedup_In, HordS_In, Hx.
+      + intros Hx. apply HordS_In. rewrite dedup_In in Hx. exact Hx.
+      + intros Hx. apply add_In. right. apply dedup_In, HordG_In, Hx.
+      + intros Hx. apply add_In in Hx. destruct Hx as [-> | Hx]; [exact HbG|]. apply HordG_In. rewrite dedup_In in Hx. exact Hx.
+      + intros k. destruct (lookup k (ttD T)) as [v|] eqn:E.
+        * symmetry. apply Hlk. apply lookup_In. exact E.
+        * destruct (lookup k (tm_delta_of (regroup ordP (tm_trs T)))) as [v|] eqn:E'; [|reflexivity].
+          apply Hlk in E'. rewrite lookup_None in E. destruct (E v E').
+  Qed.
+End RoundTripTM.
